@@ -19,6 +19,15 @@
     observe <rule> <ops>                      → ok rx=<n> tx=<n> in=<n> out=<n>
           op = r.<n> | w.<n> | f.<n> | io.<r|w|f>.<requested>.<done>.<err> ; rule = done (the code) | okonly
     holdsbytes <rx> <tx> <in> <out>           → true | false <reason>
+    connectexit <order> <cf> <route> <tt> <hs> <after>
+                                              → ok conn=<0|1> err=<0|1> events=<…> opened=<0|1> dialerr=<0|1> closes=<k> active=<g> allgone=<0|1>
+          one way through handleConnectRequest from p.Connect on, as the dialer's metrics see it
+          order = code (defer before the error check) | late (after it)
+          cf    = unset | fallback | r<status or ->.<conn>.<err>          (what p.ConnectFunc returned)
+          route = urlerr | scheme | direct.<ok> | http.<tls>.<ok>.<end> | socks.<ok>.<neg|est>
+                  end = tls | hdr | wr | ctx | rep | <status of the proxy's reply>
+          after = mre.<w> | pass.<w> | tun.<writeError|drainFailure|closed>.<forced>
+          events: e = failed dial, o = connection dialled, c = Close call (comma list, `~` = empty)
 
   events:   r.<METHOD> | w.<METHOD>.<status>      (comma list, `~` = empty)
   inflight: <METHOD>:<int>,…   (methods with a series, i.e. that occurred in an event)
@@ -192,6 +201,61 @@ def decodeIoOp (s : String) : Option IoOp :=
     pure (.io k r d e)
   | _ => none
 
+def decodeViaEnd : String → Option ViaEnd
+  | "tls" => some .tlsFails
+  | "hdr" => some .headerError
+  | "wr" => some .writeError
+  | "ctx" => some .ctxDone
+  | "rep" => some .replyError
+  | s => (natOf s).map .reply
+
+def decodeRoute (s : String) : Option Route :=
+  match s.splitOn "." with
+  | ["urlerr"] => some .proxyURLError
+  | ["scheme"] => some .unsupportedScheme
+  | ["direct", ok] => (boolOf ok).map .direct
+  | ["http", tls, ok, e] => do
+    let tls ← boolOf tls
+    let ok ← boolOf ok
+    let e ← decodeViaEnd e
+    pure (.viaHTTP tls ok e)
+  | ["socks", ok, "neg"] => (boolOf ok).map fun ok => .viaSOCKS5 ok .negotiationFails
+  | ["socks", ok, "est"] => (boolOf ok).map fun ok => .viaSOCKS5 ok .established
+  | _ => none
+
+def decodeConnectFn (s : String) : Option ConnectFn :=
+  if s = "unset" then some .unset
+  else if s = "fallback" then some .fallback
+  else if s.startsWith "r" then
+    match ((s.drop 1).toString).splitOn "." with
+    | [res, c, e] => do
+      let res ← if res = "-" then some none else (natOf res).map some
+      let c ← boolOf c
+      let e ← boolOf e
+      pure (.result ⟨res, c, e⟩)
+    | _ => none
+  else none
+
+def decodeAfter (s : String) : Option AfterConnect :=
+  match s.splitOn "." with
+  | ["mre", w] => (boolOf w).map .modifyResponseError
+  | ["pass", w] => (boolOf w).map .passedOn
+  | ["tun", e, f] => do
+    let e ← decodeEnd e
+    let f ← boolOf f
+    pure (.tunnel e f)
+  | _ => none
+
+def decodeOrder : String → Option DeferOrder
+  | "code" => some .beforeErrorCheck
+  | "late" => some .afterErrorCheck
+  | _ => none
+
+def encodeDEv : DEv → String
+  | .dialError => "e"
+  | .opened => "o"
+  | .close => "c"
+
 def handle : List String → String
   | ["path", kind, method, status, werr] =>
     match decodePath kind method status werr with
@@ -267,6 +331,14 @@ def handle : List String → String
     | some rx, some tx, some i, some o =>
       if holdsBytes rx tx i o then "true" else s!"false observer-rx-{rx}-tx-{tx}-but-the-connection-moved-in-{i}-out-{o}"
     | _, _, _, _ => "bad-op"
+  | ["connectexit", order, cf, route, tt, hs, after] =>
+    match decodeOrder order, decodeConnectFn cf, decodeRoute route, boolOf tt, boolOf hs, decodeAfter after with
+    | some o, some cf, some route, some tt, some hs, some a =>
+      let x : ConnectExit := ⟨cf, route, tt, hs, a⟩
+      let evs := x.devents o
+      let st := LSt.init.run true (dialOps 0 evs)
+      s!"ok conn={ofBool x.result.conn} err={ofBool x.result.err} events={joinList (evs.map encodeDEv)} opened={ofBool (decide (DEv.opened ∈ evs))} dialerr={ofBool (decide (DEv.dialError ∈ evs))} closes={closesOf evs} active={st.active} allgone={ofBool st.allGone}"
+    | _, _, _, _, _, _ => "bad-op"
   | _ => "bad-op"
 
 end C13
